@@ -97,7 +97,7 @@ def struct_data(tier, seed, inputs=None):
     cf = os.path.join(wd, "struct.cases")
     with open(cf, "w") as f:
         for c in cases:
-            o = 1 | 2 | (4 if c["dim"] == 3 else 0)
+            o = 1 | 2 | 8 | (4 if c["dim"] == 3 else 0)
             f.write(T.case_line(c, o) + "\n")
     rc, impl, out = C.run_impl(exe, cf, os.path.join(wd, "struct.out"))
     mf = os.path.join(wd, "struct.model.cases")
